@@ -256,7 +256,14 @@ func recipeEquivalent(key, got, want string) bool {
 		}
 	}
 	switch key {
-	case "plugin.ParseRecipient.name":
+	case "plugin.ParseRecipient.name", "plugin.ParseIdentity.name":
+		// lower-casing what is lower case already: behind the prefix guard (a recipe of its own)
+		// the whole human-readable part is in the case of the prefix — Bech32 refuses mixed case
+		if key == "plugin.ParseRecipient.name" && got == "strings.ToLower("+want+")" {
+			return true
+		}
+		fallthrough
+	case "plugin.ParseRecipient.name#slice":
 		// the prefix removed by slicing after the prefix test instead of TrimPrefix (the facts
 		// recipe of the same function requires the HasPrefix guard)
 		if got == `Slice(bech32.Decode(P1).0, 4, _)` && want == `strings.TrimPrefix(bech32.Decode(P1).0, "age1")` {
